@@ -21,6 +21,7 @@ ASSUMPTIONS = ["user supplied filters (Callback, Regex, custom impls) are truste
                "the filter is consulted with the peer's topic set as it is at that moment; interleavings with other events are sequential (single &mut self)",
                "BTreeSet / HashSet / HashMap semantics"]
 G = "libp2p_gossipsub"
+CONFIGS = [{"name": "gossipsub-features", "packages": ["libp2p-gossipsub"], "features": "metrics,partial-messages"}]
 SF = r"subscription_filter::TopicSubscriptionFilter::filter_incoming_subscriptions$"
 SELFTEST = [
     {"mutation": "original F9: handle_graft inserts the raw GRAFT topics (`for topic in &topics { connected_peer.topics.insert(topic.clone()) }`)", "caught_by": "topic-set/handle_graft: inserted topic comes from the subscription filter's output"},
